@@ -1,10 +1,11 @@
 (* C18 glue.
    layout   vmaj vmin eol objs frees size tpre -> hex of the file bytes
-            eol: 0 LF, 1 CR, 2 CRLF;  objs: "nr:gen:hexbody;..." ; frees: "nr:next:gen;..." (hex ints)
+            eol: 0 LF, 1 CR, 2 CRLF;  objs: "nr:gen:xgen:hexbody;..." (gen: object header, xgen: xref table entry) ; frees: "nr:next:gen;..." (hex ints)
    check    hexfile -> stage number (0 = accepted)
    entry    eol a b free -> hex of the 20-byte line
    i64buf   i byteCount -> hex
    dec      n -> hex of the decimal text
+   undelete frees nr -> frees after UndeleteObject (input order, revived entry removed) + new generation
    freeobj  frees nr gen -> "nr:next:gen;..." after FreeObject, and whether the chain is still ok *)
 open Model
 open Common
@@ -12,7 +13,7 @@ open Common
 let eol_of s = match s with "0" -> LF | "1" -> CR | "2" -> CRLF | _ -> failwith "eol"
 let split c s = if s = "" then [] else String.split_on_char c s
 let obj_of s = match String.split_on_char ':' s with
-  | [a; b; c] -> { o_nr = n_of_hex a; o_gen = n_of_hex b; o_body = bytes_of_hex c }
+  | [a; b; x; c] -> { o_nr = n_of_hex a; o_gen = n_of_hex b; o_xgen = n_of_hex x; o_body = bytes_of_hex c }
   | _ -> failwith "obj"
 let free_of s = match String.split_on_char ':' s with
   | [a; b; c] -> { e_nr = n_of_hex a; e_a = n_of_hex b; e_b = n_of_hex c; e_free = true }
@@ -38,5 +39,10 @@ let dispatch fn args = match fn, args with
   | "freeobj", [frees; nr; gen] ->
       let l = free_object (List.map free_of (split ';' frees)) (n_of_hex nr) (n_of_hex gen) in
       String.concat ";" (List.map str_free l) ^ " " ^ str_of_bool (chain_ok l)
+  | "undelete", [frees; nr] ->
+      (match undelete_object (List.map free_of (split ';' frees)) (n_of_hex nr) with
+       | None -> "err"
+       | Some (l, None) -> String.concat ";" (List.map str_free l) ^ " notfound"
+       | Some (l, Some g) -> String.concat ";" (List.map str_free l) ^ " gen=" ^ hex_of_n g)
   | _ -> failwith ("unknown function " ^ fn)
 let () = main dispatch
